@@ -897,6 +897,16 @@ fn reference_mismatch(spec: &AnimSpec, model: &Model, observed: &Vals, out: &mut
     if !(t < 1.0e6) {
         return None;
     }
+    // Within a rounding or two of the end instant the animator may already (rightly) show the end
+    // of the timeline while the reference, evaluated at the f32 instant, is still inside the last
+    // cycle - with a cycle shorter than the resolution of the time even at its very beginning.
+    // What holds there is C07's business (terminal values once is_ended).
+    if let Some(total) = oracle::merged_total(m) {
+        if (t as f64 - total).abs() <= 4.0 * f32::EPSILON as f64 * total.abs().max(1e-30) {
+            out.count("probe.reference_skipped_at_the_end_instant");
+            return None;
+        }
+    }
     let r = oracle::ref_eval(m, model.entry[model.cur].as_ref(), t);
     for prop in 0..4 {
         if let Some(rp) = &r[prop] {
